@@ -16,5 +16,6 @@ VARIABLE idx
 Init == idx \in 1 .. Len(Records)
 Next == UNCHANGED idx
 
-AllRecordsOK == RecordOK(Records[idx])
+AllResultsOK == ResultsOK(Records[idx])      \* C10, C11, C12
+AllScansOK   == ScansOK(Records[idx])        \* C19
 =============================================================================
